@@ -1,5 +1,6 @@
 import Drivers.Proto
 import St4sd.Model.Env
+import St4sd.Model.C17Vars
 /-! Model driver for property C17.
 
 ops
@@ -14,6 +15,10 @@ ops
 `node`, `withname` and `session` take an optional `"primitive":bool` (default true); when false the object reads
 the instance document of the platform (`instEnvs`, `FlowIRConcrete.instance` through `replicate()`); with
 `"reload":true` in addition the instance document was stored and loaded again (instance directory).
+`node`, `withname` and `session` take an optional `"vars":[[platform,D],...]` (global variables per platform): when
+present the values may contain `%(name)s` references and the answer is computed by `Model/C17Vars.lean`
+(`envForNodeV` / `runCallsV` on `confDoc`); `{"error":"unknownVar"}` = `FlowIRVariableUnknown`.
+`subst` kind `"V"`: every `%(name)s` whose name is in the map replaced, the others kept (`tokV`).
 `D` = `[[key,value],...]`.  Environment names in `envs` are spelled as in the document
 (the model lower-cases them like `FlowIR.from_dict`).
 -/
@@ -46,6 +51,23 @@ def resJson : Except Err Dict → Json
   | .ok d => jobj [("ok", dictJson d)]
   | .error .unknownEnv => jobj [("error", jstr "unknownEnv")]
 
+def resJsonV : Except ErrV Dict → Json
+  | .ok d => jobj [("ok", dictJson d)]
+  | .error (.env .unknownEnv) => jobj [("error", jstr "unknownEnv")]
+  | .error .unknownVar => jobj [("error", jstr "unknownVar")]
+
+def parseVars (j : Json) : Except String Vars := do
+  (← j.getArr?).toList.mapM (fun pe => do
+    let a ← pe.getArr?
+    if a.size != 2 then throw "vars entry must be [platform, dict]"
+    return ((← a[0]!.getStr?).toList, (← parseDict a[1]!)))
+
+def getVars? (j : Json) : Except String (Option Vars) :=
+  match j.getObjVal? "vars" with
+  | .ok Json.null => return none
+  | .ok v => return some (← parseVars v)
+  | .error _ => return none
+
 def getPrimitive (j : Json) : Bool :=
   match j.getObjVal? "primitive" with
   | .ok (Json.bool b) => b
@@ -70,15 +92,22 @@ def ansJson : Ans → Json
   | .env r => resJson r
   | .unit => Json.null
 
+def ansJsonV : AnsV → Json
+  | .env r => resJsonV r
+  | .unit => Json.null
+
 def handle (j : Json) : Except String Json := do
   let op ← getStr j "op"
   match op with
   | "session" =>
     let sys ← parseDict (← j.getObjVal? "sys")
     let plat ← getChars j "platform"
-    let envs := confEnvs (loadEnvs (← parseEnvs (← j.getObjVal? "envs"))) plat (getPrimitive j) (getReload j)
     let launch ← parseDict (← j.getObjVal? "launch")
     let calls ← (← getArr j "calls").mapM parseCall
+    if let some vars := (← getVars? j) then
+      let doc := confDoc ⟨loadEnvs (← parseEnvs (← j.getObjVal? "envs")), vars⟩ plat (getPrimitive j) (getReload j)
+      return jobj [("answers", jarr ((runCallsV launch ⟨sys, doc, plat, getPrimitive j⟩ calls).map ansJsonV))]
+    let envs := confEnvs (loadEnvs (← parseEnvs (← j.getObjVal? "envs"))) plat (getPrimitive j) (getReload j)
     return jobj [("answers", jarr ((runCalls launch ⟨sys, envs, plat⟩ calls).map ansJson))]
   | "node" | "withname" =>
     let sys ← parseDict (← j.getObjVal? "sys")
@@ -86,6 +115,12 @@ def handle (j : Json) : Except String Json := do
     let envs := confEnvs (loadEnvs (← parseEnvs (← j.getObjVal? "envs"))) plat (getPrimitive j) (getReload j)
     let launch ← parseDict (← j.getObjVal? "launch")
     let name := (← getOptStr j "name").map String.toList
+    if let some vars := (← getVars? j) then
+      let doc := confDoc ⟨loadEnvs (← parseEnvs (← j.getObjVal? "envs")), vars⟩ plat (getPrimitive j) (getReload j)
+      if op == "node" then
+        return resJsonV (envForNodeV sys doc plat launch name (← getBool j "interp") (getPrimitive j))
+      else
+        return resJson (envWithName sys doc.envs plat launch name (← getBool j "expand") (← getBool j "remove"))
     if op == "node" then
       let interp ← getBool j "interp"
       return resJson (envForNode sys envs plat launch name interp)
@@ -97,7 +132,8 @@ def handle (j : Json) : Except String Json := do
     let kind ← getStr j "kind"
     let m ← parseDict (← j.getObjVal? "map")
     let s ← getChars j "s"
-    let out := if kind == "T" then substT (dget m) s else expandvars (dget m) s
+    let out := if kind == "T" then substT (dget m) s
+      else if kind == "V" then render (dget m) (tokV .normal s) else expandvars (dget m) s
     return jobj [("out", jchars out)]
   | _ => throw s!"unknown op {op}"
 
